@@ -42,3 +42,20 @@ reg("C01", "c01", [("certificates", "plain", 1)], "exploration",
                "Exploration: sizes are small (n<=5, cones <=4).",
     level_note="Trusts numpy linear algebra and vlib/ref_cone.py (cone algebra written from coneprog.rst).",
     design_ref="4/C01")
+
+reg("C02", "c02", [("solvers", "plain", 3), ("op", "plain", 1)], "exploration",
+    rule=CONE_GEN + "classes weighted 40% planted primal-infeasible, 40% planted unbounded, 20% random; same "
+         "configuration space as C01 (entry points, KKT solvers, storage, start points, options, glpk/dsdp), plus "
+         "op.solve on modeling problems assembled from split variables / split constraint blocks (dense and sparse "
+         "format and coefficients, default and glpk). Every 'primal infeasible' / 'dual infeasible' answer is "
+         "re-judged in numpy. Non-trivial = an infeasibility status with a q/s block of size >=2 or equality "
+         "constraints (op part: >=2 constraints or variables); distinct = SHA-1 of case JSON.",
+    assumptions=["rank-deficient data are outside the documented domain (skipped, counted)",
+                 "GLPK documents that it returns no certificates: only 'all fields None' is checked there",
+                 "exceptions are judged by C05/C10"],
+    technique="property-based testing (Hypothesis) with an independent numpy Farkas-certificate oracle",
+    level_text="Every infeasibility verdict produced on ~2e4 (quick) / 4e5 (thorough) generated problems is checked "
+               "as a Farkas certificate against the caller's data (normalisation, cone membership, residual, reported "
+               "fields), through conelp/lp/socp/sdp and op.solve.",
+    level_note="Trusts numpy and vlib/ref_cone.py.",
+    design_ref="4/C02")
